@@ -20,7 +20,8 @@ RULE = ("Real client and server application stacks on a fault-injecting virtual 
         "(configuration, fault plan)."
         " Also: single faults around the sequence-number wrap of a 263-segment transfer (windows 1/2/4, both directions); single faults with one configured retry."
         " Other timer proportions (APDU timeout 10 s / 6 s with segment timeout 2 s / 1 s)."
-        " One reduced copy of a generated shard runs with the library's debug tracing switched on (label tracing-on).")
+        " One reduced copy of a generated shard runs with the library's debug tracing switched on (label tracing-on)."
+        " Single faults also against a serving application that answers after 1.5 segment timeouts (timer proportions 10 s / 2 s and 6 s / 1 s).")
 ASSUMPTIONS = [
     "the APDU timeout is not shorter than the segment timeout (with the reverse, the requester restarts a segmented request while the answer is still being repaired, and the standard's own state machine aborts)",
     "segment boundaries follow the library's slicing rule (payload / max-APDU); whether the resulting frames respect the peer's limits is C12",
@@ -336,13 +337,15 @@ def run(spec, ctx):
                     for act in fault_actions(cfg) + [("delay", 1.5), ("delay", 3.5)]:
                         ctx.check(dict(k="txn", cfg=cfg, plan={str(i): list(act)}))
             # other timer proportions: an APDU timeout well above four segment timeouts (10 s / 2 s, 6 s / 1 s)
+            # ... and a serving application that takes longer than a segment timeout (but far less than the APDU timeout) to answer
             for (cw, sw) in wins[:2]:
                 for (ta, ts) in ((10000, 2000), (6000, 1000)):
-                    cfg = base_cfg(S, req_len=rq, rsp_len=rp, c_win=cw, s_win=sw, apdu_timeout=ta, seg_timeout=ts)
-                    base, nframes = baseline_for(cfg)
-                    for i in range(nframes):
-                        for act in (("drop",), ("dup",)):
-                            ctx.check(dict(k="txn", cfg=cfg, plan={str(i): list(act)}))
+                    for think in (0.0, 1.5 * ts / 1000.0):
+                        cfg = base_cfg(S, req_len=rq, rsp_len=rp, c_win=cw, s_win=sw, apdu_timeout=ta, seg_timeout=ts, think=think)
+                        base, nframes = baseline_for(cfg)
+                        for i in range(nframes):
+                            for act in (("drop",), ("dup",)):
+                                ctx.check(dict(k="txn", cfg=cfg, plan={str(i): list(act)}))
         ctx.mark_exhaustive("every single fault at every frame index (max-APDU %d, %s, %d segments)" % (S, spec["which"], spec["nseg"]))
     elif kind == "pairs":
         # every pair of faults on a small segmented exchange (payload / wire clauses; repair is only promised for single faults)
